@@ -98,8 +98,8 @@ def touch(st, k):
 
 
 def _kind_sort(kind):
-    from .core import DYN
-    table = {"Int": z3.IntSort(), "Real": z3.RealSort(), "Bool": z3.BoolSort(), "String": z3.StringSort(), "Ref": REF, "Dyn": DYN}
+    from .core import DYN, OptInt
+    table = {"Int": z3.IntSort(), "Real": z3.RealSort(), "Bool": z3.BoolSort(), "String": z3.StringSort(), "Ref": REF, "Dyn": DYN, "OptInt": OptInt}
     if kind in table:
         return table[kind]
     from .core import KIND_SORTS
